@@ -31,7 +31,7 @@ type c02Case struct {
 }
 
 var c02Profiles = []gen.Profile{gen.PInt, gen.PInt, gen.PFloat, gen.PBool, gen.PLowStr, gen.PLowStr, gen.PHighStr, gen.PNumText,
-	gen.PMixNumStr, gen.PMixNumBool, gen.PIntBig, gen.PWidth6Str, gen.PMixIntFloat, gen.PNullOnly}
+	gen.PMixNumStr, gen.PMixNumBool, gen.PIntBig, gen.PWidth6Str, gen.PMixIntFloat, gen.PNullOnly, gen.PMixNumNumText, gen.PMixNumNumText}
 
 func genC02(t *rapid.T) *c02Case {
 	ds := gen.GenDataset(t, gen.DatasetOpts{MaxEvents: pt.Scale(40, 150), MaxCols: 5, Profiles: c02Profiles, NullPct: 3})
@@ -230,6 +230,15 @@ func checkOneQuery(c *sut.Client, cs *c02Case, qi int, q c02Query, o *pt.Obs) er
 	}
 	o.Class("root_" + q.F.Kind)
 	ctx := model.NewCtx(evs)
+	if pt.KnownFindingOpen("C01-numtext-to-number") {
+		// while numeric text sharing a block with numbers is stored as numbers (the conversion that
+		// finding is about), comparisons on those values are numeric by value
+		var blocks [][]*model.Event
+		for _, r := range cs.Layout.BlockRanges() {
+			blocks = append(blocks, evs[r[0]:r[1]])
+		}
+		ctx.NumericConsolidation(blocks)
+	}
 	// (1) reference evaluation, strict zones only
 	nT, nF, nDC := 0, 0, 0
 	for _, e := range evs {
